@@ -1274,6 +1274,20 @@ def as_map(v):
                 sub = {t: simp(subst(m[1], {m[0]: e})) for t, m in zip(tg[1], maps)}
                 return (e, simp(subst(v[2], sub)), maps[0][2], tuple(simp(subst(c, sub)) for c in ifs))
             return None
+        if tg is not None and tg[0] == "tuple" and tg[1] and all(t is not None and t[0] == "bv" for t in tg[1]):
+            # `for a, b in S` over any other sequence: a and b are the items of S's element -- the parts of the pair when S is itself a
+            # map that builds pairs (`[(f(r), g(r)) for r in R]`), so the composition is one map over R
+            inner = as_map(it) if it[0] in ("comp", "copy") else None
+            if inner is not None:
+                bv2, body2, base2, ifs2 = inner
+                if body2[0] in ("tuple", "list") and len(body2[1]) == len(tg[1]) and not any(x[0] == "star" for x in body2[1]):
+                    m = dict(zip(tg[1], body2[1]))
+                else:
+                    m = {t: ("item", body2, i) for i, t in enumerate(tg[1])}
+                return (bv2, simp(subst(v[2], m)), base2, tuple(ifs2) + tuple(simp(subst(c, m)) for c in ifs))
+            e = ("bv", "_t", next(_fresh))
+            m = {t: ("item", e, i) for i, t in enumerate(tg[1])}
+            return (e, simp(subst(v[2], m)), it, tuple(simp(subst(c, m)) for c in ifs))
         if tg is None or tg[0] != "bv":
             return None
         if it[0] == "call" and it[1] == ("global", "zip") and not it[3] and it[2]:
@@ -1387,6 +1401,9 @@ def simp(v):
         for p in v[1]:
             if p[0] == "fmt" and p[2] is None and p[3] == -1:
                 inner = p[1]
+                if inner[0] == "call" and inner[1] == ("global", "str") and len(inner[2]) == 1 and not inner[3]:
+                    inner = inner[2][0]                     # f"{str(x)}" / "a" + str(x) print x
+                    p = ("fmt", inner, None, -1)
                 if inner[0] == "const" and isinstance(inner[1], str):
                     parts.append(inner)
                     continue
@@ -1487,9 +1504,10 @@ def simp(v):
         if isinstance(a, str) and type(b) is int and 0 <= b * len(a) <= 256:
             return ("const", a * b)
     # [f(a, b) for a, b in ((a1, b1), (a2, b2), ..)] over a display of known elements is the display [f(a1, b1), f(a2, b2), ..]
-    if k == "comp" and v[1] == "list" and len(v[3]) == 1 and not v[3][0][2] and v[3][0][1][0] in ("tuple", "list") and 0 < len(v[3][0][1][1]) <= 16 \
-            and not any(e[0] == "star" for e in v[3][0][1][1]):
-        tg, it, _ = v[3][0]
+    # (with filters -- `[c for c in (a, b) if c]`, also as a generator -- when the truth of every filter is visible from the element's shape)
+    if k == "comp" and v[1] in ("list", "gen") and len(v[3]) == 1 and (not v[3][0][2] or v[3][0][0] is not None) and (v[1] == "list" or v[3][0][2]) \
+            and v[3][0][1][0] in ("tuple", "list") and 0 < len(v[3][0][1][1]) <= 16 and not any(e[0] == "star" for e in v[3][0][1][1]):
+        tg, it, ifs_ = v[3][0]
         names = [tg] if tg is not None and tg[0] == "bv" else list(tg[1]) if tg is not None and tg[0] == "tuple" and all(t is not None and t[0] == "bv" for t in tg[1]) else None
         if names is not None:
             out = []
@@ -1501,7 +1519,12 @@ def simp(v):
                 else:
                     out = None
                     break
-                out.append(simp(subst(v[2], m)))
+                keep = [truthy(simp(subst(c_, m))) for c_ in ifs_]
+                if any(t_ is None for t_ in keep):
+                    out = None
+                    break
+                if all(keep):
+                    out.append(simp(subst(v[2], m)))
             if out is not None:
                 return ("list", tuple(out))
     # list + list: one list (operands that are not displays are spliced in as *operand)
@@ -1605,6 +1628,9 @@ def simp(v):
         i = v[2][1] if k == "sub" and v[2][0] == "const" else v[2] if k == "item" else None
         if type(i) is int and -len(v[1][2]) <= i < len(v[1][2]):
             return v[1][2][i][1]
+    # D[k] if k in D else d   is   D.get(k, d)
+    if k in ("ifexp", "phi") and len(v) == 4 and v[1][0] == "cmp" and v[1][1] == ("In",) and len(v[1][2]) == 2 and v[2] == ("sub", v[1][2][1], v[1][2][0]):
+        return ("meth", v[1][2][1], "get", (v[1][2][0], v[3]), ())
     if k == "sub":
         base, idx = v[1], v[2]
         if base[0] in ("list", "tuple") and idx[0] == "const" and isinstance(idx[1], int) \
@@ -1651,6 +1677,11 @@ def simp(v):
     if k == "call" and v[1] == ("global", "filter") and len(v[2]) == 2 and not v[3] and v[2][0] == ("const", None) and v[2][1][0] in ("list", "tuple") \
             and all(e[0] != "star" and truthy(e) is not None for e in v[2][1][1]):
         return ("list", tuple(e for e in v[2][1][1] if truthy(e)))
+    # the k-th item of an element of zip(A, B, ..) is the element of the k-th sequence at the same position
+    if k == "item" and isinstance(v[2], int) and v[1][0] == "elem" and len(v[1]) == 3:
+        z = strip_transparent(v[1][1])
+        if z[0] == "call" and z[1] == ("global", "zip") and not z[3] and 0 <= v[2] < len(z[2]) and not any(a[0] == "star" for a in z[2]):
+            return simp(("elem", z[2][v[2]], v[1][2]))
     if k == "item" and v[1][0] in ("tuple", "list") and isinstance(v[2], int) and not any(e[0] == "star" for e in v[1][1]):
         if -len(v[1][1]) <= v[2] < len(v[1][1]):
             return v[1][1][v[2]]
@@ -2024,7 +2055,7 @@ def peval(v, assume: dict, as_cond: bool = False):
         return ("phi", c, peval(v[2], assume, as_cond), peval(v[3], assume, as_cond))
     if k == "comp":
         gens = tuple((tg, peval(it, assume), tuple(peval(c, assume, True) for c in ifs)) for tg, it, ifs in v[3])
-        return ("comp", v[1], peval(v[2], assume, as_cond), gens)
+        return simp(("comp", v[1], peval(v[2], assume, as_cond), gens))
     return simp(tuple(peval(x, assume, as_cond) if isinstance(x, tuple) else x for x in v))
 
 
